@@ -420,6 +420,7 @@ int main(int argc, char **argv) {
     char *line = 0; size_t cap = 0; ssize_t len;
     /* quiet: asn_fprint(0,...) writes to stdout by default -> use our own sink instead */
     setvbuf(stdout, 0, _IOFBF, 1 << 16);
+    out_need(1 << 16);      /* the reply buffer exists before any op looks at the allocation ledger */
     while((len = getline(&line, &cap, stdin)) > 0) {
         while(len > 0 && (line[len - 1] == '\n' || line[len - 1] == '\r')) line[--len] = 0;
         char *a[16]; int n = 0; char *save = 0;
